@@ -1,7 +1,7 @@
 (* C03 — rule kinds determine what objects a model contains.
    Model: Model/Kinds.v (transcription of _determine_rule_types, _textx_isinstance and the
    abstract / match / common branch of process_node in the repaired tree). *)
-From TxV Require Import Core.Base Model.Kinds Proofs.KindsProofs Proofs.KindsInhProofs.
+From TxV Require Import Core.Base Model.Kinds Proofs.KindsProofs Proofs.KindsInhProofs Proofs.KindsRecProofs.
 
 (* ---- rule kinds.  The multi-pass fixpoint terminates (the model's fuel - |rules|+1 passes,
    |rules|+1 nested calls per pass - is never exhausted) and gives every rule the documented
@@ -154,6 +154,58 @@ Proof.
       (inversion Hyz as [|x' y' z' Kx' _ _]; subst; discriminate Kx').
 Qed.
 Print Assumptions C03_isinstance_implies_yields_refuted.
+
+(* ---- the recorded lists, exactly.  For every grammar without a cycle through abstract rules the lists
+   that _determine_rule_types leaves are the declarative early-exit walk over the final kinds, as lists: *)
+Theorem C03_tx_inh_by_recorded : forall (g : list rule) (rank : nat -> nat) (s : st),
+  determine_types g = Some s -> acyclic_abstract g (types s) rank ->
+  forall x, types s x = KAbstract -> inh s x = recorded g (types s) x.
+Proof. exact tx_inh_by_recorded. Qed.
+Print Assumptions C03_tx_inh_by_recorded.
+
+(* ... so textx_isinstance is exactly the closure of `recorded`: the code's conformance relation is
+   specified, not only bounded (yields <= recorded_reach <= reach; equality with yields under tight) *)
+Theorem C03_isinstance_exact : forall (g : list rule) (rank : nat -> nat) (s : st),
+  determine_types g = Some s -> acyclic_abstract g (types s) rank ->
+  forall r k, isinstance (length g) (inh s) k (Some r) = Some true <-> recorded_reach g (types s) r k.
+Proof. exact isinstance_exact. Qed.
+Print Assumptions C03_isinstance_exact.
+
+Theorem C03_yields_recorded_reach : forall (g : list rule) (rank : nat -> nat) (s : st),
+  determine_types g = Some s -> wf_inh g (types s) rank ->
+  forall r k, (yields g (types s) r k -> recorded_reach g (types s) r k) /\
+              (tight g (types s) -> recorded_reach g (types s) r k -> yields g (types s) r k).
+Proof. exact yields_recorded_reach. Qed.
+Print Assumptions C03_yields_recorded_reach.
+
+Example C03_isinstance_exact_example :
+  (* A: C | 'k' C D;  records [C; D]: D is in the closure of `recorded` although A never yields D *)
+  let g := [ {| r_attrs := false; r_body := Body (Choice [Ref 1; Seq [Term; Ref 1; Ref 2]]) |};
+             {| r_attrs := true; r_body := Body Term |};
+             {| r_attrs := true; r_body := Body Term |} ] in
+  exists s, determine_types g = Some s /\ acyclic_abstract g (types s) (fun _ => 0) /\
+            recorded g (types s) 0 = [1; 2] /\ recorded_reach g (types s) 0 2.
+Proof.
+  eexists. split; [vm_compute; reflexivity|]. split; [|split; [reflexivity|]].
+  - intros x y Hx Hy Ky. destruct x as [|[|[|x]]]; try discriminate Hx.
+    destruct Hy as [<-|[<-|[<-|[]]]]; discriminate Ky.
+  - apply rreach_step with (y := 2); [reflexivity | simpl; auto | apply rreach_refl].
+Qed.
+Print Assumptions C03_isinstance_exact_example.
+
+(* with a cycle through abstract rules the lists are NOT the walk over the final kinds
+   (A: B | C;  B: '(' A ')' | D;  B holds [D], the walk gives [A; D]): the known finding *)
+Theorem C03_tx_inh_by_recorded_cyclic_refuted :
+  exists (g : list rule) s x, determine_types g = Some s /\ types s x = KAbstract /\
+                               inh s x <> recorded g (types s) x.
+Proof.
+  exists [ {| r_attrs := false; r_body := Body (Choice [Ref 1; Ref 2]) |};
+           {| r_attrs := false; r_body := Body (Choice [Seq [Term; Ref 0; Term]; Ref 3]) |};
+           {| r_attrs := true; r_body := Body Term |};
+           {| r_attrs := true; r_body := Body Term |} ].
+  eexists. exists 1. split; [vm_compute; reflexivity|]. split; [reflexivity|]. vm_compute. discriminate.
+Qed.
+Print Assumptions C03_tx_inh_by_recorded_cyclic_refuted.
 
 (* ---- objects.  Whatever the parse tree and the kinds, every object that process_node creates
    is an instance of a rule whose kind is common (an abstract rule's class is never
